@@ -13,7 +13,7 @@ ID = 'C11'
 LEVEL = 'exploration'
 ANCHORS = ('VbsWriter.close', 'VbsWriter.__exit__', 'Block1014.seek', 'Block1014.finalise')
 RULE = ('case = (writer class, format, file kind, record set, finalisation history f1..fm with fi in {close(), '
-        'context-manager exit}); all histories up to the bound are enumerated; exits are real nested with-blocks. The file '
+        'context-manager exit, context-manager exit through an exception}); all histories up to the bound are enumerated; exits are real nested with-blocks. The file '
         'after the whole history must equal the file after the first finalisation and read back (real reader and '
         'reference reader) as exactly the records written. Distinct by construction. Non-trivial: every history.')
 ASSUMPTIONS = ['vmon/ref/blocking.py', 'whether a repeated finalisation is ignored or refused with an exception is not judged; '
@@ -32,17 +32,21 @@ def finish(ctx):
         shutil.rmtree(ctx.tmpdir, ignore_errors=True)
 
 
-def histories(maxlen):
+def histories(maxlen, alphabet=('close', 'exit', 'exit_exc')):
+    """exit = leaving the with-block normally, exit_exc = leaving it through an exception raised inside the block."""
     for n in range(1, maxlen + 1):
-        for h in itertools.product(('close', 'exit'), repeat=n):
+        for h in itertools.product(alphabet, repeat=n):
             yield list(h)
 
 
 def cases(ctx):
-    maxlen = 4 if ctx.tier == 'quick' else 6
+    maxlen = 4 if ctx.tier == 'quick' else 5
     i = 0
     n = 0
-    for h in histories(maxlen):
+    hs = list(histories(maxlen))
+    if ctx.tier != 'quick':
+        hs += [h for h in histories(6, ('close', 'exit')) if len(h) == 6]
+    for h in hs:
         for writer in ('VbsWriter', 'IpmWriter'):
             for fmt in ('vbs', '1014'):
                 for fk in ('bytesio', 'realfile'):
@@ -125,17 +129,19 @@ class Driver:
                 while tokens[pos] == 'close':
                     self.do_close()
                     pos += 1
+                if tokens[pos] == 'exit_exc':
+                    raise _Leave()
             self.events.append(('exit', None))
-        except _WriteFailed:
-            raise
+        except _Leave:
+            self.events.append(('exit_exc', None))
         except Exception as ex:  # noqa
-            self.events.append(('exit', type(ex).__name__))
+            self.events.append((tokens[pos] if pos < len(tokens) else 'exit', type(ex).__name__))
         self.snapshots.append(self.snapshot())
         return pos + 1
 
     def play(self):
         tokens = list(self.case['history'])
-        k = tokens.count('exit')
+        k = sum(1 for t in tokens if t.startswith('exit'))
         pos = 0
         if k:
             pos = self.nest(tokens, 0, k)
@@ -151,8 +157,8 @@ class Driver:
         return final
 
 
-class _WriteFailed(Exception):
-    pass
+class _Leave(Exception):
+    """Raised inside a with-block by the driver to leave it through an exception."""
 
 
 def judge(ctx, case):
@@ -208,7 +214,7 @@ def judge(ctx, case):
         ctx.violation('file_does_not_hold_the_records_written:real_reader',
                       {'case': case, 'detail': dict(detail, want=len(want), got=len(got))})
     ctx.case_done(nontrivial=True, enumerated=True)
-    ctx.seen('history shapes', ''.join(t[0] for t in case['history']))
+    ctx.seen('history shapes', ''.join('x' if t == 'exit_exc' else t[0] for t in case['history']))
     if len(case['history']) == 3 and case['records'] == 'three' and case['file'] == 'bytesio':
         ctx.sample(dict(case, events=d.events, file_len=len(final)))
 
@@ -221,13 +227,13 @@ def canaries(ctx):
     ctx.canary('appended terminator changes bytes', good + b'\x00\x00\x00\x00' != good)
     ctx.canary('good file reads back', ref.vbs_records_in(good) == (recs, 'end'))
     hs = list(histories(4))
-    ctx.canary('30 histories up to length 4', len(hs) == 30 and ['exit', 'close', 'exit'] in hs)
+    ctx.canary('120 histories up to length 4', len(hs) == 120 and ['exit', 'close', 'exit'] in hs and ['close', 'exit_exc'] in hs)
 
 
 def require(m):
     reasons = []
     shapes = set(m['classes'].get('history shapes', ()))
-    for need in ('c', 'e', 'ce', 'ec', 'cc', 'ee', 'ece'):
+    for need in ('c', 'e', 'x', 'ce', 'ec', 'cc', 'ee', 'cx', 'xc', 'ece', 'cxc'):
         if need not in shapes:
             reasons.append('history %s never played' % need)
     return reasons
